@@ -30,6 +30,7 @@ func init() {
 
 func runC44(c *core.Ctx) {
 	checkVbftBlockWrapSinks(c)
+	checkVbftBinaryCodecFields(c)
 	dvm := c.Fn(pkVbft, "DeserializeVbftMsg")
 	svm := c.Fn(pkVbft, "SerializeVbftMsg")
 	pk := c.P.Pkgs[ir.PkgPath(pkVbft)]
